@@ -298,8 +298,7 @@ pub fn run(args: &[String]) -> i32 {
                 continue;
             }
             // C02: same output and exit status as the native run
-            std::thread::sleep(std::time::Duration::from_millis(20));
-            let out = s.stdout().into_bytes();
+            let out = s.wait_stdout_eq(&prog.native_out, 10_000);
             let code = s.events.take().iter().rev().find_map(|e| if let e2e::Ev::Exit(c) = e { Some(*c) } else { None });
             if out != prog.native_out || code != prog.native_code {
                 behaviour_failures.push(format!("prog {pseed} history {hi}: output/exit {:?}/{:?} differ from native {:?}/{:?}",
